@@ -665,7 +665,7 @@ fn case(tier: Tier) -> BoxedStrategy<Case> {
 pub fn run(ctx: &Ctx, rep: &Report) {
     run_enum(ctx, rep, "boundaries", &boundary_cases(ctx.tier), true, &check);
     let tier = ctx.tier;
-    run_prop(ctx, rep, "random", ctx.tier.pick(700, 15_000), &move || case(tier), &check);
+    run_prop(ctx, rep, "random", ctx.tier.pick(700, 150_000), &move || case(tier), &check);
 }
 
 pub fn replay(sub: &str, case: &serde_json::Value) -> Result<(), Fail> {
